@@ -18,6 +18,7 @@ SeqSet(q) == {q[i] : i \in DOMAIN q}
 
 MNew(st, x, items)     == [st EXCEPT ![x] = Mk(SeqSet(items))]
 MAdd(st, x, items)     == [st EXCEPT ![x] = Mk(st[x].m \cup SeqSet(items))]
+MAddRange(st, x, lo, hi) == [st EXCEPT ![x] = Mk(st[x].m \cup (lo..(hi - 1)))]
 MAddAll(st, x, y)      == [st EXCEPT ![x] = Mk(st[x].m \cup st[y].m)]
 MRemove(st, x, items)  == [st EXCEPT ![x].m = @ \ SeqSet(items)]
 MRemoveAll(st, x, y)   == [st EXCEPT ![x].m = @ \ st[y].m]
